@@ -25,7 +25,7 @@ BAD = re.compile(r"panic:|gonil|HOSTPANIC|HOSTDEATH|R:death")
 def decode_op(op):
     t = op.split(" ")
     try:
-        if len(t) >= 4 and t[1] in ("s", "r"):
+        if len(t) >= 4 and t[1] in ("s", "r", "h"):
             txt = "" if t[3] == "-" else "".join(chr(int(c)) for c in t[3].split("."))
             return {"kind": t[1], "cfg": t[2], "text": txt}
         if len(t) >= 4 and t[1] == "b":
@@ -78,7 +78,10 @@ def judge_crash(rows, stats):
             # the earliest witness when the follow-up battery then fails)
             key = "off_rest_after_" + field(impl, "E:")[2:]
             st[key] = st.get(key, 0) + 1
-        if kind == "e":
+        if kind == "v":
+            bad = bad or not impl.endswith(" F=-")
+            i_cmp = m_cmp = impl
+        elif kind == "e":
             bad = bad or not impl.endswith(" F=-")
             i_cmp = " ".join(impl.split(" ")[:2])      # n=… h=…
             m_cmp = model
@@ -115,9 +118,10 @@ def split_enum(rep, op, impl):
     m = re.search(r" F=(\S+)$", impl)
     ops = []
     if m and m.group(1) != "-":
+        kind = op.split(" ")[1]
         for item in m.group(1).split(","):
             codes = item.split("=")[0]
-            ops.append("crash s b " + codes)
+            ops.append(("crash h b " if kind == "v" else "crash s b ") + codes)
     return ops
 
 
@@ -267,11 +271,12 @@ def run(rep):
     extra = []
     for op, impl, model, spec in rows:
         k = op.split(" ")[1] if " " in op else ""
-        if k == "e" and not impl.endswith(" F=-"):
+        if k in ("e", "v") and not impl.endswith(" F=-"):
             extra += split_enum(rep, op, impl)
     if extra:
         xrows, _ = V.run_channel("crash", rep.seed, rep.tier, extra_ops=sorted(set(extra)), gen=False)
-        rows = [r for r in rows if not (r[0].split(" ")[1] == "e" and not r[1].endswith(" F=-") and BAD.search(r[1]))] + xrows
+        # the ranges whose failing members were re-run as single ops are represented by those
+        rows = [r for r in rows if not (r[0].split(" ")[1] in ("e", "v") and not r[1].endswith(" F=-"))] + xrows
     fixed = []
     for op, impl, model, spec in rows:
         if op.split(" ")[1] == "r" and BAD.search(impl):
